@@ -36,6 +36,48 @@ class _FilesPeer:
         return Peer(env.REPO + "/tests/snapshots/default.snapshot")
 
 
+def _decode_statu(h):
+    """start / length of a built STATU request, as a peer decodes them from its bytes"""
+    from geckolib.driver import GeckoStatusBlockProtocolHandler
+    d = GeckoStatusBlockProtocolHandler()
+    d.handle(h._content, None)
+    return int(d.start), int(d.length)
+
+
+def refresh_request(m, stack):
+    """-> (start, length) of the status-block request the real client builds for its periodic refresh of this
+    log table (the client methods are run on a stand-in object that carries the real table)"""
+    from geckolib.driver import GeckoStructure
+    st = GeckoStructure(None)
+    tb = packs.table(m, st)
+
+    class Proto:
+        def get_and_increment_sequence_counter(self, command):
+            return 7
+
+    class Stub:
+        pass
+    stub = Stub()
+    stub.sendparms = ("10.0.0.1", 10022, b"SPA", b"IOS")
+    if stack == "async":
+        from geckolib.async_spa import GeckoAsyncSpa
+        stub._protocol = Proto()
+        stub.log_class = tb
+        return _decode_statu(GeckoAsyncSpa._get_status_block_handler_func(stub))
+    from geckolib.spa import GeckoSpa
+    got = {}
+
+    class Struct:
+        def retry_request(self, sock, request, parms):
+            got["h"] = request
+    stub.new_log_class = tb
+    stub.is_connected = True
+    stub.struct = Struct()
+    stub.get_and_increment_sequence_counter = lambda command: 7
+    GeckoSpa.refresh(stub)
+    return _decode_statu(got["h"])
+
+
 def _mod(obj):
     return type(obj).__module__.rsplit(".", 1)[-1] if obj is not None else ""
 
@@ -140,6 +182,18 @@ def run(ctx):
             recs.append({"kind": "connect", "stack": stack, "pack": pname, "cfg": c, "log": l, "module": plat,
                          "gpack": got[0], "gcfg": got[1], "glog": got[2]})
             meta.append(f"{plat}.@connect")
+    # the refresh window of every log table as the real clients request it: the periodic refresh of both clients
+    # must cover [begin, end] (end inclusive: items sit on it in three shipped tables)
+    for m in [m for m in mods if m["kind"] == "log"]:
+        t = cur[f"{m['name']}.@table"]
+        for stack in ("async", "sync"):
+            try:
+                start, length = refresh_request(m, stack)
+            except Exception as e:  # noqa
+                start, length = -1, -1
+            recs.append({"kind": "refresh", "module": m["name"], "stack": stack, "begin": t["begin"], "end": t["end"],
+                         "start": start, "len": length})
+            meta.append(f"{m['name']}.@refresh")
     # the generator (tests/packgen.py): every shipped table, turned back into the declaration shape the
     # generator reads, is regenerated by the real generator functions and must come out identical
     from ..packgen_rt import RoundTrip
